@@ -104,3 +104,123 @@ cow_contract('yaml.constructor.BaseConstructor.add_constructor', 'yaml_construct
 cow_contract('yaml.constructor.BaseConstructor.add_multi_constructor', 'yaml_multi_constructors', 'tag_prefix', 'multi_constructor', ['C10', 'C01', 'C04'])
 cow_contract('yaml.representer.BaseRepresenter.add_representer', 'yaml_representers', 'data_type', 'representer', ['C10'])
 cow_contract('yaml.representer.BaseRepresenter.add_multi_representer', 'yaml_multi_representers', 'data_type', 'representer', ['C10'])
+
+
+# ---- add_implicit_resolver: the same copy-on-write rule one level deeper.  The table maps a leading character to a LIST of
+# (tag, regexp) pairs and the registration appends to lists, so the first own table of a class must copy every list, not only the dict:
+#   vals_lists : every value of every own table is an allocated list object
+#   sep        : tables of two different classes share no list object ("customising one class never changes another", at depth 2)
+# Contract: both are preserved; cls owns its table afterwards; no other class's own/f entry changes; no dict that existed before is
+# written except cls's own table; NO LIST that existed before is written except the lists that were values of cls's own table.
+IR = 'yaml_implicit_resolvers'
+
+
+def _tabs(ex, st):
+    return ex.harr(st, 'own:' + IR), ex.harr(st, 'f:' + IR), ex.harr(st, '$dhas'), ex.harr(st, '$dval'), ex.harr(st, '$seq')
+
+
+def ir_vals_lists(cx):
+    ex, st = cx.ex, cx.st
+    own, fld, has, val, _ = _tabs(ex, st)
+    c = z3.Int('vl_c'); k = z3.Const('vl_k', V)
+    t = rv(z3.Select(fld, c))
+    v = z3.Select(z3.Select(val, t), k)
+    return z3.ForAll([c, k], z3.Implies(z3.And(z3.Select(own, c), z3.Select(z3.Select(has, t), k)),
+                                        z3.And(is_r(v), typ(rv(v)) == 1, rv(v) >= 0, rv(v) < st.alloc)))
+
+
+ir_vals_lists.__name__ = 'vals_lists: every value of every own implicit-resolver table is a list object'
+
+
+def ir_sep(cx):
+    ex, st = cx.ex, cx.st
+    own, fld, has, val, _ = _tabs(ex, st)
+    c, d = z3.Ints('sp_c sp_d'); k1 = z3.Const('sp_k1', V); k2 = z3.Const('sp_k2', V)
+    tc, td = rv(z3.Select(fld, c)), rv(z3.Select(fld, d))
+    return z3.ForAll([c, d, k1, k2], z3.Implies(
+        z3.And(c != d, z3.Select(own, c), z3.Select(own, d), z3.Select(z3.Select(has, tc), k1), z3.Select(z3.Select(has, td), k2)),
+        z3.Select(z3.Select(val, tc), k1) != z3.Select(z3.Select(val, td), k2)))
+
+
+ir_sep.__name__ = 'sep: the implicit-resolver tables of two different classes share no list'
+
+
+def ir_frame(cx):
+    """nothing that existed is written, except cls's own table and the lists that were its values"""
+    ex, st, old = cx.ex, cx.st, cx.old
+    own0, f0, has0, val0, seq0 = _tabs(ex, old)
+    own1, f1, has1, val1, seq1 = _tabs(ex, st)
+    cls = rv(old.env['cls'].t)
+    t0 = rv(z3.Select(f0, cls))
+    owned = z3.Select(own0, cls)
+    ref = z3.Int('fr_ref'); k = z3.Const('fr_k', V)
+    dicts = z3.ForAll([ref], z3.Implies(z3.And(ref < old.alloc, z3.Not(z3.And(owned, ref == t0))),
+                                        z3.And(z3.Select(has1, ref) == z3.Select(has0, ref), z3.Select(val1, ref) == z3.Select(val0, ref))),
+                      patterns=[z3.Select(has0, ref), z3.Select(val0, ref)])
+    was_value = z3.Exists([k], z3.And(z3.Select(z3.Select(has0, t0), k), z3.Select(z3.Select(val0, t0), k) == mk_r(ref)))
+    lists = z3.ForAll([ref], z3.Implies(z3.And(ref < old.alloc, z3.Not(z3.And(owned, was_value))), z3.Select(seq1, ref) == z3.Select(seq0, ref)),
+                      patterns=[z3.Select(seq0, ref)])
+    return z3.And(dicts, lists)
+
+
+ir_frame.__name__ = 'frame: only the own table of cls and the lists that were its values are written'
+
+
+def ir_provenance(cx):
+    """every list in the table cls now owns was either created by this call or was already a value of cls's own table"""
+    ex, st, old = cx.ex, cx.st, cx.old
+    own0, f0, has0, val0, seq0 = _tabs(ex, old)
+    own1, f1, has1, val1, seq1 = _tabs(ex, st)
+    cls = rv(old.env['cls'].t)
+    t0, t1 = rv(z3.Select(f0, cls)), rv(z3.Select(f1, cls))
+    k = z3.Const('pv_k', V)
+    v = z3.Select(z3.Select(val1, t1), k)
+    k0 = z3.Const('pv_k0', V)
+    return z3.ForAll([k], z3.Implies(z3.Select(z3.Select(has1, t1), k),
+                                     z3.Or(rv(v) >= old.alloc,
+                                           z3.And(z3.Select(own0, cls), z3.Exists([k0], z3.And(z3.Select(z3.Select(has0, t0), k0), z3.Select(z3.Select(val0, t0), k0) == v))))))
+
+
+ir_provenance.__name__ = 'provenance: the lists of the table of cls are new or were its own'
+
+def ir_new_table_ok(cx):
+    """every value of the private copy under construction is a list created by this call"""
+    ex, st, old = cx.ex, cx.st, cx.old
+    own1, f1, has1, val1, seq1 = _tabs(ex, st)
+    t = rv(cx.ev('implicit_resolvers').t)
+    k = z3.Const('nt_k', V)
+    v = z3.Select(z3.Select(val1, t), k)
+    return z3.ForAll([k], z3.Implies(z3.Select(z3.Select(has1, t), k), z3.And(is_r(v), typ(rv(v)) == 1, rv(v) >= old.alloc, rv(v) < st.alloc)))
+
+
+ir_new_table_ok.__name__ = 'every value of the private copy is a list created by this call'
+
+
+def ir_untouched_so_far(cx):
+    """while the private copy is being built nothing that existed at entry has been written and no class attribute has changed"""
+    ex, st, old = cx.ex, cx.st, cx.old
+    own0, f0, has0, val0, seq0 = _tabs(ex, old)
+    own1, f1, has1, val1, seq1 = _tabs(ex, st)
+    ref = z3.Int('us_ref')
+    return z3.And(own1 == own0, f1 == f0,
+                  z3.ForAll([ref], z3.Implies(ref < old.alloc, z3.And(z3.Select(has1, ref) == z3.Select(has0, ref), z3.Select(val1, ref) == z3.Select(val0, ref),
+                                                                      z3.Select(seq1, ref) == z3.Select(seq0, ref))),
+                            patterns=[z3.Select(has0, ref), z3.Select(val0, ref), z3.Select(seq0, ref)]))
+
+
+ir_untouched_so_far.__name__ = 'nothing that existed at entry has been written yet'
+
+contract('yaml.resolver.BaseResolver.add_implicit_resolver', props=['C10'], split_loops=True,
+         params={'cls': 'symclass', 'tag': 'str', 'first': 'opt:list'},
+         requires=[lattice(IR), ir_vals_lists, ir_sep, "first is None or forall(i, 0, len(as_(first, 'list')), hashable(as_(first, 'list')[i]))"],
+         ensures=[lambda cx: z3.Select(cx.ex.harr(cx.st, 'own:' + IR), rv(cx.old.env['cls'].t)), others_unchanged(IR), lattice(IR),
+                  ir_vals_lists, ir_sep, ir_frame],
+         labels={0: 'cls-owns-its-table', 1: 'other-classes-untouched', 2: 'inv_tables-preserved', 3: 'vals_lists-preserved', 4: 'sep-preserved',
+                 5: 'only-own-table-and-own-lists-written'},
+         invariants={0: ["typeis(implicit_resolvers, 'dict') and fresh(implicit_resolvers)",
+                         ir_new_table_ok,
+                         ir_untouched_so_far],
+                     1: [lambda cx: z3.Select(cx.ex.harr(cx.st, 'own:' + IR), rv(cx.old.env['cls'].t)), others_unchanged(IR), lattice(IR),
+                         ir_vals_lists, ir_sep, ir_frame, "forall(i, 0, len(loop_seq), hashable(loop_seq[i]))", ir_provenance]},
+         modifies=['own:' + IR, 'cls.' + IR, '$dhas', '$dval', '$dkeys', '$seq'],
+         raises=[])
